@@ -127,6 +127,9 @@ func TestVerif_C19(t *testing.T) {
 	dense := vfxDefaultSpec("c19dense", 4, seed+2) // more than 100 transactions of one account inside one range
 	dense.NumSlots, dense.SkipPercent, dense.Gsfa, dense.Accounts, dense.MaxEntries, dense.MaxTx = 40, 0, true, 1, 3, 4
 	specs = append(specs, dense)
+	noidx := vfxDefaultSpec("c19noidx", 6, seed+3) // transactions without the optional position index
+	noidx.NumSlots, noidx.SkipPercent, noidx.Gsfa, noidx.Accounts, noidx.MaxEntries, noidx.MaxTx, noidx.NoTxIndex = 12, 20, true, 3, 4, 5, true
+	specs = append(specs, noidx)
 	truths, err := vfxBuild(specs)
 	if err != nil {
 		t.Fatalf("setup failed: %v", err)
@@ -151,7 +154,7 @@ func TestVerif_C19(t *testing.T) {
 	}
 	loadedOnly := vfxAccount(1, 0).String()
 	universe = append(universe, loadedOnly, vfxAccount(1, 1).String(), vfxAccount(5, 5).String() /* never used */)
-	tr1, tr2, trD := truths[0], truths[1], truths[2]
+	tr1, tr2, trD, trN := truths[0], truths[1], truths[2], truths[3]
 	base2 := tr2.base()
 	type rng struct{ lo, hi uint64 }
 	ranges := []rng{
@@ -210,7 +213,7 @@ func TestVerif_C19(t *testing.T) {
 		return "(Some " + vh.CoqBool(*p) + ")"
 	}
 	for _, withIndex := range []bool{true, false} {
-		use := []*vfxTruth{tr1, tr2, trD}
+		use := []*vfxTruth{tr1, tr2, trD, trN}
 		var loadTruths []*vfxTruth
 		for _, tr := range use {
 			c := *tr
@@ -276,6 +279,11 @@ func TestVerif_C19(t *testing.T) {
 			key := fmt.Sprintf("%s/tx/%d-%d/%s/%v%v%v", tag, lo, hi, f, f.Include, f.Exclude, f.Required)
 			rep.Case(key, len(arch) > 0)
 			rep.Count("StreamTransactions " + tag)
+			if serr != nil && strings.Contains(serr.Error(), "no position index") {
+				// the ordered buffer of the index-accelerated path needs the OPTIONAL position index of the archive format
+				rep.Fail("indexed-stream-needs-position-index", fmt.Sprintf("%s StreamTransactions[%d,%d] filter{%s}: %v", tag, lo, hi, f, serr), replay)
+				return
+			}
 			if serr != nil {
 				rep.Fail("stream-error", fmt.Sprintf("%s StreamTransactions[%d,%d] filter{%s}: %v", tag, lo, hi, f, serr), replay)
 				return
@@ -352,6 +360,12 @@ func TestVerif_C19(t *testing.T) {
 		dAcc := vfxAccount(0, 0).String()
 		runTx(dLo, dHi, vc19Filter{Include: []string{dAcc}}, false)
 		runTx(dLo, dHi, vc19Filter{Nil: true}, false)
+		// the epoch whose transactions carry no position index: the order is the order of the block
+		nLo, nHi := trN.base(), trN.base()+uint64(trN.Spec.NumSlots)
+		runTx(nLo, nHi, vc19Filter{Nil: true}, false)
+		runTx(nLo, nHi, vc19Filter{Vote: &F}, false)
+		runTx(nLo, nHi, vc19Filter{Include: []string{universe[0]}}, false)
+		runTx(nLo, nHi, vc19Filter{Failed: &F, Include: []string{universe[1], universe[0]}, Exclude: []string{universe[2]}}, false)
 		// ---- StreamBlocks
 		for _, r := range ranges {
 			for _, inc := range [][]string{nil, {universe[0]}, {loadedOnly}, {universe[5]}, {universe[1], universe[2]}} {
